@@ -15,7 +15,7 @@ RULE = ("histories: for pools of 2D and 3D objects (points, lines, planes, colle
         "constants and the epsilon/delta caches are write-protected and a write raises, (b) soft mode: content digests of every pool object "
         "before/after each call, (c) every query is asked again after all other calls and must give the bit-identical answer. In addition a "
         "contract on every public callable of the library (any call depth, also under the repository's tests) compares digests of its tensor "
-        "operands before and after the call. Non-trivial = a call that returned normally; distinct by (operation, operand names, pool). Operands in int32 / int16 / int8 / uint8 representation (content, dtype and buffer identity before and after); direction / base_point / isinf of the line at infinity asked repeatedly between unrelated allocations.")
+        "operands before and after the call. Non-trivial = a call that returned normally; distinct by (operation, operand names, pool). Operands in int32 / int16 / int8 / uint8 representation (content, dtype and buffer identity before and after); direction / base_point / isinf of the line at infinity asked repeatedly between unrelated allocations; constructors handed a tensor returned by another call (Transformation(t.transpose()), Tensor(t.T), Point(point)) leave it unchanged and give the same object when asked twice.")
 SHARDS = (8, 16)
 REQUIRED = ["operand_purity", "sanitizer.hard", "digest.soft", "history.requery", "constants"]
 ASSUMPTIONS = ["__setitem__ and attribute assignment are documented mutators and not part of the catalogue", "read-only buffers do not change control flow (cross-checked by soft mode)"]
